@@ -542,6 +542,9 @@ func (r *vrun) tracer() *sourcebundle.BuildTracer {
 	ev := func(kind, key string) {
 		r.trace = append(r.trace, TraceEv{Seq: r.log.Steps + 1, Task: r.task(), Kind: kind, Key: key})
 		r.log.Add(r.task(), "trace-"+kind, key)
+		if r.probe {
+			r.crashProbe("trace-"+kind, len(r.trace))
+		}
 	}
 	return &sourcebundle.BuildTracer{
 		RegistryPackageVersionsStart: func(ctx context.Context, p regaddr.ModulePackage) context.Context {
